@@ -565,15 +565,16 @@ class HTMLBinaryInputStream(HTMLUnicodeInputStream):
         string = self._readPrefix(4)
 
         # Try detecting the BOM using bytes from the string
-        encoding = bomDict.get(string[:3])         # UTF-8
-        seek = 3
-        if not encoding:
-            # Need to detect UTF-32 before UTF-16
-            encoding = bomDict.get(string)         # UTF-32
-            seek = 4
-            if not encoding:
-                encoding = bomDict.get(string[:2])  # UTF-16
-                seek = 2
+        # (UTF-32 needs to be detected before UTF-16)
+        encoding = None
+        seek = 0
+        for bom in (codecs.BOM_UTF8,
+                    codecs.BOM_UTF32_LE, codecs.BOM_UTF32_BE,
+                    codecs.BOM_UTF16_LE, codecs.BOM_UTF16_BE):
+            if string.startswith(bom):
+                encoding = bomDict[bom]
+                seek = len(bom)
+                break
 
         # Set the read position past the BOM if one was found, otherwise
         # set it to the start of the stream
